@@ -2024,11 +2024,13 @@ class NodeSetComprehensionParallel:
 
     def collectVars(self, freeVars, boundVars, additionalBoundVars):
         boundVarsLocal = [*boundVars]
-        boundVarsLocal.append(self.identifier)
+        boundVarsLocal.append(self.identifier1)
+        boundVarsLocal.append(self.identifier2)
         self.valueExpr.collectVars(
             freeVars, boundVarsLocal, additionalBoundVars
         )
-        self.listExpr.collectVars(freeVars, boundVars, additionalBoundVars)
+        self.listExpr1.collectVars(freeVars, boundVars, additionalBoundVars)
+        self.listExpr2.collectVars(freeVars, boundVars, additionalBoundVars)
         if self.conditionExpr:
             self.conditionExpr.collectVars(
                 freeVars, boundVarsLocal, additionalBoundVars
@@ -2107,11 +2109,13 @@ class NodeSetComprehensionProduct:
 
     def collectVars(self, freeVars, boundVars, additionalBoundVars):
         boundVarsLocal = [*boundVars]
-        boundVarsLocal.append(self.identifier)
+        boundVarsLocal.append(self.identifier1)
+        boundVarsLocal.append(self.identifier2)
         self.valueExpr.collectVars(
             freeVars, boundVarsLocal, additionalBoundVars
         )
-        self.listExpr.collectVars(freeVars, boundVars, additionalBoundVars)
+        self.listExpr1.collectVars(freeVars, boundVars, additionalBoundVars)
+        self.listExpr2.collectVars(freeVars, boundVars, additionalBoundVars)
         if self.conditionExpr:
             self.conditionExpr.collectVars(
                 freeVars, boundVarsLocal, additionalBoundVars
